@@ -358,7 +358,7 @@ def _named_fields(view, bs, entry, disps, fs_locals, self_path, region):
             info = view.switch_info(t["target"]) if t["target"] is not None else None
             true_t = view.edge_target(info, True) if info and info["kind"] == "bool" else None
             mreg = dominated(view, true_t) if true_t is not None else set()
-            nf.missing.append({"field": fname, "bb": bb, "region": mreg,
+            nf.missing.append({"field": fname, "bb": bb, "region": mreg, "true_t": true_t,
                                "sites": [s for s in bs.sites if s.bb in mreg],
                                "user_calls": [u for u in bs.user_calls if u["bb"] in mreg],
                                "in_loop": bb in nf.loop_body})
